@@ -462,7 +462,10 @@ def _bind(h, call, selfexpr, tag, stmts, result, taken=None):
     binding[params[0]] = selfexpr
     params = params[1:]
   elif h.kind == 'classmethod':
-    return None
+    if not params or h.cls is None:
+      return None
+    binding[params[0]] = ast.Name(id=h.cls.name, ctx=ast.Load())
+    params = params[1:]
   dmap = {}
   if a.defaults:
     for p, d in zip((a.posonlyargs + a.args)[-len(a.defaults):], a.defaults):
@@ -512,7 +515,7 @@ def _bind(h, call, selfexpr, tag, stmts, result, taken=None):
       if isinstance(x, ast.Name) and isinstance(x.ctx, ast.Load):
         uses[x.id] = uses.get(x.id, 0) + 1
   for p in list(binding):
-    if h.kind == 'method' and p == (a.posonlyargs + a.args)[0].arg:
+    if h.kind in ('method', 'classmethod') and p == (a.posonlyargs + a.args)[0].arg:
       continue
     if p in assigned or (not _simple_arg(binding[p]) and (stmts or uses.get(p, 0) > 1)):
       new = p if (taken is not None and p not in taken) else '%s__%s' % (p, tag)
@@ -601,7 +604,9 @@ class _Flattener:
         h = cls.methods[fn.attr]
         if fn.value.id == selfn and selfn is not None:
           return h, ast.Name(id=selfn, ctx=ast.Load())
-        if fn.value.id == cls.name and h.kind == 'static':
+        if fn.value.id == cls.name and h.kind in ('static', 'classmethod'):
+          return h, None
+        if h.kind in ('static', 'classmethod') and fn.value.id in ('cls', selfn):
           return h, None
       r = repo.resolve_dotted(info.module, dotted(fn))
       if r and r[0] == 'func' and r[1].cls is None:
@@ -727,6 +732,8 @@ class _Flattener:
             setattr(st, fld, self.expr(val, info, fold_ok=not isinstance(st, (ast.Assign, ast.AugAssign, ast.AnnAssign, ast.Return, ast.Expr))))
         if isinstance(st, (ast.Assign, ast.AugAssign, ast.AnnAssign, ast.Return, ast.Expr)) and getattr(st, 'value', None) is not None:
           heads = [('value', st.value)]
+        if isinstance(st, ast.Raise) and st.exc is not None:
+          heads = [('exc', st.exc)]
       pre_all = []
       drop = False
       for fld, root in heads:
